@@ -672,6 +672,7 @@ type Prog struct {
 	tags    map[string]bool
 	nontrv  bool
 	finding string
+	broken  bool
 }
 
 func (p *Prog) listRegs() []int {
@@ -696,11 +697,20 @@ func (p *Prog) objRegs() []int {
 // do executes an op, recording the trace; extra per-property predicates are evaluated around it
 func (p *Prog) do(o *Op) string {
 	m := p.m
+	if p.broken {
+		return "(Ret ONone)" // the heap became unreadable earlier in this program: stop executing
+	}
 	before := canonEnv(m.vars, nil)
 	nvars := len(m.vars)
 	oc := m.exec(o)
 	var txt strings.Builder
-	h := canonEnv(m.vars, &txt)
+	var h uint64
+	if try(func() { h = canonEnv(m.vars, &txt) }) {
+		// the public API itself panics while the heap is being read back (e.g. a nil field inside a container)
+		m.fail("after %s the containers can no longer be read through Get/Count/Dict (panic while observing the heap)", o.String())
+		p.broken = true
+		h = 0
+	}
 	p.ops = append(p.ops, o)
 	p.trace = append(p.trace, fmt.Sprintf("(%s, %d)", oc, h))
 	p.lines = append(p.lines, fmt.Sprintf("%s => %s | %s", o.String(), oc, txt.String()))
@@ -709,7 +719,7 @@ func (p *Prog) do(o *Op) string {
 	if oc == "Pan" && singleIndexOp(o) && h != before {
 		m.fail("panicking %s modified the heap", o.Name)
 	}
-	if pureOp(o) {
+	if pureOp(o) && !p.broken {
 		h0 := canonEnv(m.vars[:nvars], nil)
 		if h0 != before {
 			m.fail("%s (a pure operation) modified its receiver or argument", o.Name)
@@ -832,6 +842,9 @@ func (p *Prog) newContainer() {
 
 // one random list op on register r (in the domain the properties pin down)
 func (p *Prog) listOp(r int) {
+	if p.broken {
+		return
+	}
 	l := p.m.list(r)
 	n := l.Count()
 	switch p.r.Intn(24) {
@@ -930,6 +943,9 @@ func (p *Prog) listOp(r int) {
 }
 
 func (p *Prog) objOp(r int) {
+	if p.broken {
+		return
+	}
 	ob := p.m.object(r)
 	switch p.r.Intn(22) {
 	case 0, 1, 2, 3:
@@ -1018,6 +1034,11 @@ func (p *Prog) objOp(r int) {
 }
 
 func (p *Prog) anyOp(listBias float64) {
+	if p.broken {
+		p.ops = append(p.ops, nil)
+		p.ops = p.ops[:len(p.ops)-1]
+		return
+	}
 	ls, os := p.listRegs(), p.objRegs()
 	if len(p.m.vars) < 2 || (len(p.m.vars) < 7 && p.r.chance(0.12)) {
 		p.newContainer()
@@ -1228,7 +1249,7 @@ func heapProgram(r *R, prof string) *Prog {
 		nops := 8 + r.Intn(28)
 		p.newContainer()
 		p.do(&Op{Name: "NewList", Vals: nil})
-		for len(p.ops) < nops {
+		for len(p.ops) < nops && !p.broken {
 			if r.chance(0.08) {
 				ls := p.listRegs()
 				p.growthHistory(pickOf(r, ls))
@@ -1240,7 +1261,7 @@ func heapProgram(r *R, prof string) *Prog {
 		nops := 8 + r.Intn(28)
 		p.do(&Op{Name: "NewObject", Vals: nil})
 		p.newContainer()
-		for len(p.ops) < nops {
+		for len(p.ops) < nops && !p.broken {
 			p.anyOp(0.2)
 		}
 	case "C09":
@@ -1287,6 +1308,9 @@ func heapProgram(r *R, prof string) *Prog {
 		}
 		nm := 2 + r.Intn(8)
 		for i := 0; i < nm; i++ {
+			if p.broken {
+				break
+			}
 			ls, os := p.listRegs(), p.objRegs()
 			if len(os) == 0 || r.chance(0.75) {
 				rr := pickOf(r, ls)
@@ -1314,7 +1338,7 @@ func heapProgram(r *R, prof string) *Prog {
 	case "C08":
 		// DAG-shaped source (shared sub-containers), Clone, then mutations anywhere in either side
 		nb := 3 + r.Intn(6)
-		for len(p.ops) < nb {
+		for len(p.ops) < nb && !p.broken {
 			p.anyOp(0.5)
 		}
 		src := r.Intn(len(p.m.vars))
@@ -1350,6 +1374,9 @@ func heapProgram(r *R, prof string) *Prog {
 		srcCanon := func(x any) string { return canon(x) }
 		nm := 2 + r.Intn(10)
 		for i := 0; i < nm; i++ {
+			if p.broken {
+				break
+			}
 			// pick a container reachable from one side only, mutate it, and check the other side is unchanged
 			side, other := src, clone
 			if r.chance(0.5) {
@@ -1403,12 +1430,15 @@ func heapProgram(r *R, prof string) *Prog {
 		}
 	case "C10", "C11":
 		nb := 4 + r.Intn(8)
-		for len(p.ops) < nb {
+		for len(p.ops) < nb && !p.broken {
 			p.anyOp(0.5)
 		}
 		// nest: make sure some depth exists
 		nq := 6 + r.Intn(10)
 		for i := 0; i < nq; i++ {
+			if p.broken {
+				break
+			}
 			rr := r.Intn(len(p.m.vars))
 			root := p.m.vars[rr]
 			var paths []pathInfo
@@ -1424,6 +1454,24 @@ func heapProgram(r *R, prof string) *Prog {
 					got, pan := tryVal(func() any { return getTFAny(root, tf) })
 					if pan || !sameAny(got, pi.val) {
 						p.m.fail("GetTF(%q) differs from step-by-step navigation", tf)
+					}
+				} else if len(paths) > 0 && r.chance(0.25) {
+					// index shifted to exactly n on an INNER segment, or a bare trailing sigil on a container (hits the empty key / index n)
+					pi := pickOf(r, paths)
+					switch c := pi.val.(type) {
+					case at.List:
+						tf = fmt.Sprintf("%s#%d%s", pi.path, c.Count(), pickOf(r, []string{".a", "#0", ".k.a", "", "#0#0"}))
+					case at.Object:
+						tf = pi.path + pickOf(r, []string{".", ".#0", "..a", "."})
+					default:
+						tf = pi.path + pickOf(r, []string{".", "#"})
+					}
+				} else if r.chance(0.08) {
+					switch c := root.(type) {
+					case at.List:
+						tf = fmt.Sprintf("#%d%s", c.Count(), pickOf(r, []string{".a", "#0", ""}))
+					default:
+						tf = "."
 					}
 				} else if len(paths) > 0 && r.chance(0.7) {
 					tf = p.corruptPath(pickOf(r, paths).path)
